@@ -143,9 +143,10 @@ Fixpoint merge_rest (s : gfa) (a : send) (rest : list send) (m : merged) : res m
               do os <- oriented_seq sb reversed cut ;;
               let sq := if String.eqb (seq_of sb) "*" then None
                         else match m_seq m with Some parts => Some (parts ++ [os]) | None => None end in
-              let ln := match m_ln m with
-                        | Some z => match length_of sb with Some y => Some (z + y - Z.of_nat cut)%Z | None => None end
-                        | None => None
+              (* merged.LN: the LN tags only (`if merged.LN: if segment.LN: += else None`); a member without the tag drops it *)
+              let ln := match m_ln m, ln_of sb with
+                        | Some z, Some y => if Z.eqb z 0 then None else Some (z + y - Z.of_nat cut)%Z
+                        | _, _ => None
                         end in
               merge_rest s (inv_end b) more (mkMerged (m_names m ++ [fst b]) sq ln)
           end
@@ -161,7 +162,7 @@ Definition merged_segment (s : gfa) (path : list send) : res (string * string * 
       | None => Err (Foreign AttributeError)
       | Some sa =>
           do os <- oriented_seq sa (String.eqb (snd a) "L") O ;;
-          do m <- merge_rest s a rest (mkMerged [fst a] (if String.eqb (seq_of sa) "*" then None else Some [os]) (length_of sa)) ;;
+          do m <- merge_rest s a rest (mkMerged [fst a] (if String.eqb (seq_of sa) "*" then None else Some [os]) (ln_of sa)) ;;
           let name := join_with "_" (m_names m) in
           match m_seq m with
           | None => Ok (name, "*", m_ln m)
